@@ -284,11 +284,11 @@ def audit(spec, log):
     cur = None
     flat = re.sub(r"\n\s+", " ", out)
     for line in flat.splitlines():
-        m = re.match(r"'([^']+)' depends on axioms: \[(.*)\]", line)
+        m = re.match(r"'(.+)' depends on axioms: \[(.*)\]", line)
         if m:
             axioms[m.group(1)] = [a.strip() for a in m.group(2).split(",") if a.strip()]
             continue
-        m = re.match(r"'([^']+)' does not depend on any axioms", line)
+        m = re.match(r"'(.+)' does not depend on any axioms", line)
         if m:
             axioms[m.group(1)] = []
     for t in thms:
